@@ -2224,17 +2224,17 @@ impl Archive {
             let expected_crc_table_start = offset_table_size;
             let expected_crc_table_size = sector_count * 4;
 
-            if first_data_offset >= expected_crc_table_start + expected_crc_table_size {
-                // CRC table follows the offset table
+            // A table of `sector_count` checksums directly after the offset table is the
+            // layout written by `ArchiveBuilder`. With a single sector it cannot be told
+            // apart from a StormLib-style offset table (sector_count + 2 entries), and the
+            // builder never emits single-sector sectored files, so require two sectors.
+            if sector_count > 1
+                && first_data_offset >= expected_crc_table_start + expected_crc_table_size
+            {
+                // CRC table follows the offset table. It is stored in plain form even for
+                // encrypted files (see `ArchiveBuilder::write_file`).
                 let mut crc_data = vec![0u8; expected_crc_table_size];
                 self.reader.read_exact(&mut crc_data)?;
-
-                // CRC table may be encrypted if the file is encrypted
-                // According to MPQ format, CRC table uses the same key as the offset table but offset by sector count
-                if file_info.is_encrypted() {
-                    let crc_key = key.wrapping_sub(1).wrapping_add(sector_count as u32);
-                    decrypt_file_data(&mut crc_data, crc_key);
-                }
 
                 let mut crcs = Vec::with_capacity(sector_count);
                 let mut cursor = std::io::Cursor::new(&crc_data);
@@ -2314,14 +2314,6 @@ impl Archive {
                 decrypt_file_data(sector_data, sector_key);
             }
 
-            // Validate CRC if present - MUST be done AFTER decryption but BEFORE decompression
-            // Skip CRC validation for now due to decryption key issues in some archives
-            if let Some(ref _crcs) = sector_crcs {
-                // Temporarily disabled CRC validation
-                // TODO: Fix CRC decryption key calculation for proper validation
-                log::trace!("Skipping CRC validation for sector {i}");
-            }
-
             // Decompress sector
             let decompressed_sector = if file_info.is_compressed()
                 && sector_size_compressed < expected_size
@@ -2362,6 +2354,19 @@ impl Archive {
                 // Sector is not compressed
                 sector_data[..expected_size.min(sector_data.len())].to_vec()
             };
+
+            // Validate the sector checksum if present. The builder computes ADLER32 over
+            // the plain (decrypted, decompressed) sector content, like the single unit path.
+            if let Some(ref crcs) = sector_crcs {
+                let actual = adler2::adler32_slice(&decompressed_sector);
+                if actual != crcs[i] {
+                    return Err(Error::ChecksumMismatch {
+                        file: format!("{} (sector {i})", file_info.filename),
+                        expected: crcs[i],
+                        actual,
+                    });
+                }
+            }
 
             decompressed_data.extend_from_slice(&decompressed_sector);
         }
